@@ -251,7 +251,8 @@ def write_rtdc(path, ids, feats=("deform", "area_um"), meta=None, logs=None,
         m.setdefault(sec, {}).update(kv)
     if run_id is not None:
         m["experiment"]["run identifier"] = run_id
-    if "trace" not in feats and "fl1_max" not in feats:
+    if "trace" not in feats and not any(
+            f in feats for f in ("fl1_max", "fl2_max", "fl3_max")):
         m.pop("fluorescence", None)
     parts = partition or [len(ids)]
     with RTDCWriter(path, mode=mode) as hw:
